@@ -152,6 +152,7 @@ type CacheEvent struct {
 }
 
 type cacheRun struct {
+	Unfinished bool
 	Events  []CacheEvent
 	Panic   string
 	Stack   string
@@ -383,7 +384,12 @@ func runCache(p *CachePlan, ch *simrt.Choices, trace bool) *cacheRun {
 				if op.Kind == "sleep" {
 					// simulated seconds pass (anything the cache does "at most once
 					// per second", or by the age of an entry, gets its chance)
-					simrt.Sleep(1100 * time.Millisecond)
+					// Ver > 0: a long silence of that many seconds instead (hours, days)
+					if op.Ver > 0 {
+						simrt.Sleep(time.Duration(op.Ver) * time.Second)
+					} else {
+						simrt.Sleep(1100 * time.Millisecond)
+					}
 					simrt.Yield(-40)
 					continue
 				}
@@ -428,7 +434,9 @@ func runCache(p *CachePlan, ch *simrt.Choices, trace bool) *cacheRun {
 		})
 	}
 	sim.OnIdle = func() bool { return running == 0 }
+	sim.IdleLimit = 2000 * 24 * time.Hour // silences of hours and days are part of the histories
 	sim.Run()
+	res.Unfinished = running != 0
 	if t := sim.Panicked; t != nil {
 		res.Panic = fmt.Sprint(t.Panic)
 		res.Stack = t.Stack
@@ -655,7 +663,7 @@ func genCachePlan(seed int64, prop, tier string) *CachePlan {
 				op.Kind = "data"
 			}
 			if sleepy && r.Intn(6) == 0 {
-				ops = append(ops, CacheOp{Kind: "sleep"})
+				ops = append(ops, CacheOp{Kind: "sleep", Ver: []int{0, 0, 0, 3700, 7300, 90000, 40 * 86400}[r.Intn(7)]})
 			}
 			ops = append(ops, op)
 			totalOps++
@@ -696,6 +704,9 @@ func execCache(t *testing.T, prop string, planJSON []byte, ch *simrt.Choices, tr
 		out.Probes["fnv-collision-pair-used"]++
 	}
 	checkCacheHistory(prop, &p, res, out)
+	if res.Unfinished && res.Panic == "" && len(out.Violations) == 0 && out.Inconclusive == "" {
+		out.Inconclusive = "scenario-did-not-finish"
+	}
 	if simrt.RaceBuild && (prop == "C10" || prop == "C15") {
 		checkRaceLog(prop, raceMark, out, cacheRaceScope)
 	}
